@@ -13,7 +13,7 @@
 (***************************************************************************)
 EXTENDS PlotMech, Integers, SequencesExt
 
-CONSTANTS PE, PROJ, ENG, PROJECTS, FLAGS, VARS, KINDS, MaxLen, Mech, AllowEdit, KeepHist, EmitFrom
+CONSTANTS PE, PROJ, ENG, PROJECTS, FLAGS, VARS, KINDS, MaxLen, Mech, AllowEdit, KeepHist, EmitFrom, EmitMod, RIS
 
 \* <<cache, override>> pairs (the configuration file cannot hold tuples: FLAGS <- one of these)
 FlagsTwo   == { <<TRUE, FALSE>>, <<FALSE, FALSE>> }
@@ -21,20 +21,20 @@ FlagsThree == FlagsTwo \cup { <<TRUE, TRUE>> }
 FlagsAll   == FlagsThree \cup { <<FALSE, TRUE>> }
 
 Events ==
-    { [ act |-> "ToGdf", pe |-> pe, proj |-> pj, eng |-> en, project |-> pr, cache |-> fl[1], override |-> fl[2], var |-> "-", target |-> 0 ] :
+    { [ act |-> "ToGdf", pe |-> pe, proj |-> pj, eng |-> en, project |-> pr, cache |-> fl[1], override |-> fl[2], var |-> "-", target |-> 0, ri |-> FALSE ] :
         pe \in PE, pj \in PROJ, en \in ENG, pr \in PROJECTS, fl \in FLAGS }
-    \cup { [ act |-> "DataToGdf", pe |-> pe, proj |-> pj, eng |-> en, project |-> pr, cache |-> fl[1], override |-> fl[2], var |-> v, target |-> 0 ] :
+    \cup { [ act |-> "DataToGdf", pe |-> pe, proj |-> pj, eng |-> en, project |-> pr, cache |-> fl[1], override |-> fl[2], var |-> v, target |-> 0, ri |-> FALSE ] :
         pe \in PE, pj \in PROJ, en \in ENG, pr \in PROJECTS, fl \in FLAGS, v \in VARS }
 EventsPoly ==
-    { [ act |-> "ToPoly", pe |-> pe, proj |-> pj, eng |-> "-", project |-> TRUE, cache |-> fl[1], override |-> fl[2], var |-> "-", target |-> 0 ] :
-        pe \in PE, pj \in PROJ, fl \in FLAGS }
-    \cup { [ act |-> "DataToPoly", pe |-> pe, proj |-> pj, eng |-> "-", project |-> TRUE, cache |-> fl[1], override |-> fl[2], var |-> v, target |-> 0 ] :
+    { [ act |-> "ToPoly", pe |-> pe, proj |-> pj, eng |-> "-", project |-> TRUE, cache |-> fl[1], override |-> fl[2], var |-> "-", target |-> 0, ri |-> ri ] :
+        pe \in PE, pj \in PROJ, fl \in FLAGS, ri \in RIS }
+    \cup { [ act |-> "DataToPoly", pe |-> pe, proj |-> pj, eng |-> "-", project |-> TRUE, cache |-> fl[1], override |-> fl[2], var |-> v, target |-> 0, ri |-> TRUE ] :
         pe \in PE, pj \in PROJ, fl \in FLAGS, v \in VARS }
 EventsLine ==
-    { [ act |-> "ToLine", pe |-> pe, proj |-> pj, eng |-> "-", project |-> TRUE, cache |-> fl[1], override |-> fl[2], var |-> "-", target |-> 0 ] :
+    { [ act |-> "ToLine", pe |-> pe, proj |-> pj, eng |-> "-", project |-> TRUE, cache |-> fl[1], override |-> fl[2], var |-> "-", target |-> 0, ri |-> FALSE ] :
         pe \in PE, pj \in PROJ, fl \in FLAGS }
 EditEvents(s) ==
-    IF AllowEdit THEN { [ act |-> "Edit", pe |-> "-", proj |-> "-", eng |-> "-", project |-> TRUE, cache |-> FALSE, override |-> FALSE, var |-> "-", target |-> j ] :
+    IF AllowEdit THEN { [ act |-> "Edit", pe |-> "-", proj |-> "-", eng |-> "-", project |-> TRUE, cache |-> FALSE, override |-> FALSE, var |-> "-", target |-> j, ri |-> FALSE ] :
                            j \in { x \in 1..Len(s.heap) : ~s.heap[x].edited } }
     ELSE {}
 \* a conversion of a projected GeoDataFrame without `project` only makes sense with a projection
@@ -70,10 +70,13 @@ EntryCoherent ==
                             /\ st.poly.am = Cl(st.poly.key.proj) )
     /\ st.line.present => ( st.line.val.geom.pe = st.line.key.pe /\ st.line.val.geom.proj = st.line.key.proj )
 \* under the intended mechanism the caches never hold an object the caller can reach
-NoAliasing == st.gdf.obj = 0 /\ st.line.obj = 0
+NoAliasing == st.gdf.obj = 0 /\ st.line.obj = 0 /\ st.poly.obj = 0
 TypeOK == /\ st.n \in 0..MaxLen /\ st.ret \in 0..Len(st.heap) /\ Len(st.snap) = Len(st.heap)
-          /\ st.bad \subseteq {"GeometryOfThisCall", "DataOfThisCall", "ReturnedNotMutated"}
+          /\ st.bad \subseteq {"GeometryOfThisCall", "DataOfThisCall", "ReturnedNotMutated", "FreshObject"}
 
 \* generation: every history of the wanted length, with the clauses the mechanism is predicted to break at each step
-Emit == (KeepHist /\ Len(hist) >= EmitFrom) => PrintT(<<"H", hist, bads>>)
+\* histories in which nothing is ranked bad are thinned deterministically (every EmitMod-th by a checksum of the indices)
+Checksum(h) == LET n == Len(h) IN (IF n >= 1 THEN 7 * h[1] ELSE 0) + (IF n >= 2 THEN 3 * h[2] ELSE 0) + (IF n >= 3 THEN h[3] ELSE 0)
+Emit == (KeepHist /\ Len(hist) >= EmitFrom /\ (bads[Len(bads)] # {} \/ EmitMod = 1 \/ (Checksum(hist) + 100000) % EmitMod = 0))
+            => PrintT(<<"H", hist, bads>>)
 =============================================================================
